@@ -300,6 +300,100 @@ static void run_mre(std::map<std::string, std::string> &m, Fails &F, std::string
   sig = std::to_string(RB.rows()) + "x" + std::to_string(RB.cols()) + ":" + std::to_string(rb.size());
 }
 
+// ---------------------------------------------------------------- special values and blank flags (fam=tsp)
+// value alphabet for y and yerr: every printed form the writer can produce, incl. the ones that start with a letter
+static const char *VN[9] = {"fin", "-0", "denorm", "1e308", "inf", "-inf", "nan", "-nan", "0.1"};
+static double vval(int i) {
+  switch (i) {
+    case 0: return 1.5;
+    case 1: return -0.0;
+    case 2: return 4.9406564584124654e-324;  // smallest denormal, prints 4.940656458e-324
+    case 3: return 1e308;
+    case 4: return INFINITY;
+    case 5: return -INFINITY;
+    case 6: return std::fabs(std::nan(""));
+    case 7: return -std::fabs(std::nan(""));
+    default: return 0.1;
+  }
+}
+// flags: the three defined letters, blank ' ', '\0' (what resize / push_back(x,y) leave), and another letter the writer emits as is
+static const char TF[6] = {'i', 'o', 'u', ' ', '\0', 'x'};
+static const char *TFN[6] = {"i", "o", "u", "space", "nul", "other"};
+struct SRow { int y, e, f; };
+static const SRow PARTNER[4] = {{0, 8, 0}, {4, 6, 3}, {1, 4, 4}, {6, 5, 1}};  // (1.5,0.1,'i') (inf,nan,' ') (-0,inf,'\0') (nan,-inf,'o')
+static bool same_double(double a, double b) {
+  if (std::isnan(a) || std::isnan(b)) return std::isnan(a) && std::isnan(b);
+  return std::memcmp(&a, &b, sizeof a) == 0;  // bitwise: keeps -0 and denormals apart
+}
+// err: error column; n rows: row 0 = (y,e,f); p = -1 single row, 9 second row alike, 0..3 second row = PARTNER[p] (mixed rows); ord=1: partner first
+static void run_tsp(std::map<std::string, std::string> &m, Fails &F, std::string &sig) {
+  int err = atoi(m["err"].c_str()), p = atoi(m["p"].c_str()), via = atoi(m["via"].c_str()), ord = atoi(m["ord"].c_str());
+  SRow r0{atoi(m["y"].c_str()), atoi(m["e"].c_str()), atoi(m["f"].c_str())};
+  std::vector<SRow> rows{r0};
+  if (p == 9) rows.push_back(r0);
+  else if (p >= 0) { if (ord) rows.insert(rows.begin(), PARTNER[p]); else rows.push_back(PARTNER[p]); }
+  static const double XS[3] = {0.0, 0.1, -2.5};
+  Table t;
+  t.SetHasYErr(err);
+  t.resize((Index)rows.size());
+  for (size_t i = 0; i < rows.size(); i++) {
+    if (err) t.set((Index)i, XS[i], vval(rows[i].y), TF[rows[i].f], vval(rows[i].e));
+    else t.set((Index)i, XS[i], vval(rows[i].y), TF[rows[i].f]);
+  }
+  Table r;
+  std::string text;
+  auto rowcls = [&](size_t i) {  // the part of the row that decides how its tail is tokenised
+    return std::string("yerr=") + (err ? VN[rows[i].e] : "none") + ",flag=" + TFN[rows[i].f];
+  };
+  auto ycls = [&](size_t i) { return std::string("y=") + VN[rows[i].y] + ",yerr=" + (err ? "yes" : "none") + ",flag=" + TFN[rows[i].f]; };
+  try {
+    if (via == 0) {
+      t.Save("s.tab");
+      std::ifstream in("s.tab");
+      std::stringstream ss; ss << in.rdbuf(); text = ss.str();
+      r.Load("s.tab");
+    } else {
+      std::stringstream ss;
+      ss << t;
+      text = ss.str();
+      ss >> r;
+    }
+  } catch (const std::exception &e) {
+    // which row class makes the reader give up: the first row holding a denormal, else row 0
+    size_t bad = 0;
+    for (size_t i = 0; i < rows.size(); i++) if (rows[i].y == 2 || (err && rows[i].e == 2)) { bad = i; break; }
+    bool den = rows[bad].y == 2 || (err && rows[bad].e == 2);
+    F.add(std::string("table-special:read-throws:") + (den ? "denormal" : rowcls(bad)), "reading back '" + text.substr(0, text.find('\n')) + "' threw: " + std::string(e.what()).substr(0, 80));
+    sig = "EXC";
+    return;
+  }
+  std::string line0 = text.substr(0, text.find('\n'));
+  if (r.size() != (Index)rows.size()) { F.add("table-special:size:" + rowcls(0), "wrote " + std::to_string(rows.size()) + " rows ('" + line0 + "' ...), read " + std::to_string(r.size())); return; }
+  bool haserr = r.GetHasYErr() && r.yerr().size() == r.size();
+  for (size_t i = 0; i < rows.size(); i++) {
+    std::string ln = bsx::split(text, '\n')[i];
+    std::string ctx = "row " + std::to_string(i) + " written as '" + ln + "'";
+    if (!same_double(r.x((Index)i), XS[i])) F.add("table-special:x:" + rowcls(i), ctx + ": x read " + bsx::fmt(r.x((Index)i)));
+    if (!same_double(r.y((Index)i), vval(rows[i].y))) F.add("table-special:y:" + ycls(i), ctx + ": y read " + bsx::fmt(r.y((Index)i)) + " written " + bsx::fmt(vval(rows[i].y)));
+    char fw = TF[rows[i].f], fr = r.flags((Index)i);
+    bool okf = true;
+    if (fw == 'i' || fw == 'o' || fw == 'u') okf = fr == fw;                 // a written flag comes back unchanged
+    else if (fw == ' ' || fw == '\0') okf = fr == 'i' || fr == ' ' || fr == '\0';  // no flag column is written: the reader's default 'i' (or blank) is all the format can say
+    // any other letter: the reader knows i/o/u only; what it returns is not specified (left out)
+    if (!okf) F.add("table-special:flag:" + rowcls(i), ctx + ": flag read '" + std::string(1, fr ? fr : '0') + "'");
+    if (err) {
+      if (!haserr) F.add("table-special:yerr-column-lost:" + rowcls(i), ctx + ": table comes back without error column (GetHasYErr()=" + (r.GetHasYErr() ? "1" : "0") + ")");
+      else if (!same_double(r.yerr((Index)i), vval(rows[i].e)))
+        F.add("table-special:yerr:" + rowcls(i), ctx + ": error read " + bsx::fmt(r.yerr((Index)i)) + " written " + bsx::fmt(vval(rows[i].e)));
+    } else if (r.GetHasYErr()) {
+      F.add("table-special:yerr-column-invented:" + rowcls(i), ctx + ": table without error column comes back with one");
+    }
+  }
+  std::string fs;
+  for (Index i = 0; i < r.size(); i++) fs += r.flags(i) ? r.flags(i) : '0';
+  sig = std::to_string(r.size()) + ":" + fs + ":" + (r.GetHasYErr() ? "E" : "-") + ":" + line0;
+}
+
 static std::vector<std::pair<std::string, std::string>> g_last;
 static bsx::Outcome run_case(const std::string &cas) {
   bsx::Outcome o;
@@ -312,6 +406,7 @@ static bsx::Outcome run_case(const std::string &cas) {
     else if (fam == "ds") run_ds(m, F, sig);
     else if (fam == "idx") run_idx(m, F, sig);
     else if (fam == "tre") run_tre(m, F, sig);
+    else if (fam == "tsp") run_tsp(m, F, sig);
     else if (fam == "mre") run_mre(m, F, sig);
     else throw std::runtime_error("unknown family");
   } catch (const std::exception &e) {
@@ -358,6 +453,8 @@ int main(int argc, char **argv) {
            "x every flag tuple over {i,o,u,unset} x error column on/off x comment {none, one line, multi-line with '#'} x {Save/Load, operator<< / >>}; "
            "IMC matrices: every shape 1x1.." + std::to_string(maxr) + "x" + std::to_string(maxc) + " x {ascending distinct, non-symmetric signed magnitudes, symmetric} x sub-selection lists {none,{0},{1,0},{0,1},{0,2},{2,0,1}}; "
            "dS vectors: rows 1.." + std::to_string(maxn) + " x patterns x lists; index files: every ordered tuple of 1..3 ranges over 6 range shapes (plain, strided, single, two blocks). "
+           "special values: y and yerr over {1.5, -0, smallest denormal, 1e308, inf, -inf, nan, -nan, 0.1} in every column x flags {i, o, u, ' ', NUL, other letter 'x'} x error column on/off, "
+           "one row, two alike rows, mixed with 4 partner rows; read back bitwise (or both NaN), written i/o/u flags unchanged, blank flags may return as the default 'i', presence of the error column unchanged, no exception; "
            "reuse histories: ONE Table object that loaded / had pushed / loaded+pushed base table a then loads base table b (5 base tables: empty, 2 rows, 2 rows+errors, 3 rows+errors+unset flags, 1 row; all 25 ordered pairs x {file, stream}) "
            "must be indistinguishable (rows, flags, GetHasYErr, errors, saved text) from a fresh Table that loaded b (operator>> clears first = replace, not append); imcio_read_matrix / imcio_read_index on two files in a row (16 ordered pairs). "
            "Oracle: read == written to half a unit of the last printed digit (10 digits tables, 8 digits imc), flags equal (unset may return as default 'i'), names and expanded index lists equal. "
@@ -403,6 +500,18 @@ int main(int argc, char **argv) {
       all.push_back(o.str());
     }
   }
+  // special values x blank flags: single row and two alike rows over the full product, mixed rows with 4 partner rows (both orders in thorough)
+  for (int err = 0; err < 2; err++)
+    for (int y = 0; y < 9; y++)
+      for (int e = 0; e < (err ? 9 : 1); e++)
+        for (int f = 0; f < 6; f++)
+          for (int p : {-1, 9, 0, 1, 2, 3})
+            for (int ord = 0; ord < ((p >= 0 && p < 9 && thorough) ? 2 : 1); ord++)
+              for (int via = 0; via < ((p >= 0 && p < 9 && !thorough) ? 1 : 2); via++) {
+                std::ostringstream o;
+                o << "fam=tsp;err=" << err << ";y=" << y << ";e=" << e << ";f=" << f << ";p=" << p << ";ord=" << ord << ";via=" << (p >= 0 && p < 9 && !thorough ? 1 : via);
+                all.push_back(o.str());
+              }
   // reuse histories
   for (int a = 0; a < 5; a++)
     for (int b = 0; b < 5; b++)
